@@ -5,7 +5,7 @@
 //! it is exactly the RFC 5.3 recomposition of the expected components with the
 //! three documented disambiguations.
 use crate::oracle::{comps_of, concat_eq, recompose_pieces, split_ref, Comps};
-use crate::sym::{any_bool, as_str, assume, bytes_eq, vec_of, Text};
+use crate::sym::{any_bool, as_str, assume, bytes_eq, vec_cap, vec_of, Text};
 use crate::{cover, tables};
 use iref_core::{iri, uri, IriBuf, IriRefBuf, UriBuf, UriRefBuf};
 use std::mem::forget;
@@ -35,8 +35,8 @@ fn is_expected(out: &[u8], b: &[u8], w: Which, new: Option<&[u8]>, slash_empty: 
 }
 
 macro_rules! setter_body {
-    ($fname:ident, $Buf:ty, $tablek:ident, $mkbuf:expr, $which:expr, $argvalid:expr, $call:expr, $optional:expr) => {
-        fn $fname<const N: usize, const M: usize>() {
+    ($fname:ident, $Buf:ty, $tablek:ident, $mkbuf:ident, $which:expr, $argvalid:expr, $call:expr, $optional:expr) => {
+        fn $fname<const N: usize, const M: usize, const K: usize>() {
             let t = Text::<N>::any();
             let b = t.bytes();
             assume(tables::$tablek(b, N));
@@ -46,35 +46,35 @@ macro_rules! setter_body {
             if some {
                 assume($argvalid(arg));
             }
-            let mut x: $Buf = $mkbuf(b);
+            let mut x: $Buf = $mkbuf::<K>(b);
             $call(&mut x, if some { Some(arg) } else { None });
             let out = x.as_bytes();
             // (an empty path after an authority may stay empty or become "/")
             let new = if some { Some(arg) } else { None };
             assert!(
-                is_expected(out, b, $which, new, true, N + M + 3) || is_expected(out, b, $which, new, false, N + M + 3),
+                is_expected(out, b, $which, new, true, K) || is_expected(out, b, $which, new, false, K),
                 "C05: result differs from the recomposition of the expected components"
             );
-            assert!(tables::$tablek(out, N + M + 3), "C04: the buffer is no longer a valid value of its type after the setter");
+            assert!(tables::$tablek(out, K), "C04: the buffer is no longer a valid value of its type after the setter");
             cover!(some && out.len() > b.len(), "the text grew");
             cover!(out.len() < b.len(), "the text shrank");
-            cover!(out.len() == N + M + 1, "grew by the whole argument plus a delimiter");
+            cover!(out.len() == K, "reached the longest possible result");
             forget(x);
         }
     };
 }
 
-fn mk_urirefbuf(b: &[u8]) -> UriRefBuf {
-    unsafe { UriRefBuf::new_unchecked(vec_of(b)) }
+fn mk_urirefbuf<const K: usize>(b: &[u8]) -> UriRefBuf {
+    unsafe { UriRefBuf::new_unchecked(vec_cap::<K>(b)) }
 }
-fn mk_irirefbuf(b: &[u8]) -> IriRefBuf {
-    unsafe { IriRefBuf::new_unchecked(String::from_utf8_unchecked(vec_of(b))) }
+fn mk_irirefbuf<const K: usize>(b: &[u8]) -> IriRefBuf {
+    unsafe { IriRefBuf::new_unchecked(String::from_utf8_unchecked(vec_cap::<K>(b))) }
 }
-fn mk_uribuf(b: &[u8]) -> UriBuf {
-    unsafe { UriBuf::new_unchecked(vec_of(b)) }
+fn mk_uribuf<const K: usize>(b: &[u8]) -> UriBuf {
+    unsafe { UriBuf::new_unchecked(vec_cap::<K>(b)) }
 }
-fn mk_iribuf(b: &[u8]) -> IriBuf {
-    unsafe { IriBuf::new_unchecked(String::from_utf8_unchecked(vec_of(b))) }
+fn mk_iribuf<const K: usize>(b: &[u8]) -> IriBuf {
+    unsafe { IriBuf::new_unchecked(String::from_utf8_unchecked(vec_cap::<K>(b))) }
 }
 
 fn v_scheme(a: &[u8]) -> bool {
@@ -125,165 +125,165 @@ macro_rules! h {
     };
 }
 
-// @h prop=C05,C04:thorough tier=quick kind=check timeout=2400 bound="UriRefBuf text <= 4 bytes, scheme argument <= 2 bytes or removal" encodes="RiRefBufImpl::set_scheme;parse::find_scheme;PathImpl::looks_like_scheme;utils::{replace,allocate_range}"
+// @h prop=C05,C04:thorough tier=quick kind=check mem=8 timeout=1800 bound="UriRefBuf text <= 4 bytes, scheme argument <= 2 bytes or removal" encodes="RiRefBufImpl::set_scheme;parse::find_scheme;PathImpl::looks_like_scheme;utils::{replace,allocate_range}"
 #[cfg_attr(kani, kani::proof)]
 #[cfg_attr(kani, kani::unwind(11))]
 #[cfg_attr(kani, kani::stub(std::vec::Vec::resize, crate::stubs::vec_resize))]
 pub fn c05_urirefbuf_set_scheme_n4() {
-    urirefbuf_set_scheme::<4, 2>()
+    urirefbuf_set_scheme::<4, 2, 7>()
 }
 
 // @h prop=C05,C04 tier=thorough kind=check timeout=2400 bound="UriRefBuf text <= 5 bytes, scheme argument <= 2 bytes or removal" encodes="RiRefBufImpl::set_scheme;parse::find_scheme;PathImpl::looks_like_scheme;utils::{replace,allocate_range}"
 #[cfg_attr(kani, kani::proof)]
-#[cfg_attr(kani, kani::unwind(12))]
+#[cfg_attr(kani, kani::unwind(11))]
 #[cfg_attr(kani, kani::stub(std::vec::Vec::resize, crate::stubs::vec_resize))]
 pub fn c05_urirefbuf_set_scheme_n5() {
-    urirefbuf_set_scheme::<5, 2>()
+    urirefbuf_set_scheme::<5, 2, 8>()
 }
 
 // @h prop=C05,C04 tier=thorough kind=check timeout=2400 bound="UriRefBuf text <= 6 bytes, scheme argument <= 2 bytes or removal" encodes="RiRefBufImpl::set_scheme;parse::find_scheme;PathImpl::looks_like_scheme;utils::{replace,allocate_range}"
 #[cfg_attr(kani, kani::proof)]
-#[cfg_attr(kani, kani::unwind(13))]
+#[cfg_attr(kani, kani::unwind(11))]
 #[cfg_attr(kani, kani::stub(std::vec::Vec::resize, crate::stubs::vec_resize))]
 pub fn c05_urirefbuf_set_scheme_n6() {
-    urirefbuf_set_scheme::<6, 2>()
+    urirefbuf_set_scheme::<6, 2, 9>()
 }
 
-// @h prop=C05,C04 tier=quick kind=check timeout=2400 bound="UriRefBuf text <= 4 bytes, authority argument <= 2 bytes or removal" encodes="RiRefBufImpl::set_authority;parse::find_authority;utils::{replace,allocate_range}"
+// @h prop=C05,C04:thorough tier=quick kind=check mem=8 timeout=1800 bound="UriRefBuf text <= 4 bytes, authority argument <= 2 bytes or removal" encodes="RiRefBufImpl::set_authority;parse::find_authority;utils::{replace,allocate_range}"
 #[cfg_attr(kani, kani::proof)]
 #[cfg_attr(kani, kani::unwind(11))]
 #[cfg_attr(kani, kani::stub(std::vec::Vec::resize, crate::stubs::vec_resize))]
 pub fn c05_urirefbuf_set_authority_n4() {
-    urirefbuf_set_authority::<4, 2>()
+    urirefbuf_set_authority::<4, 2, 9>()
 }
 
 // @h prop=C05,C04 tier=thorough kind=check timeout=2400 bound="UriRefBuf text <= 5 bytes, authority argument <= 2 bytes or removal" encodes="RiRefBufImpl::set_authority;parse::find_authority;utils::{replace,allocate_range}"
 #[cfg_attr(kani, kani::proof)]
-#[cfg_attr(kani, kani::unwind(12))]
+#[cfg_attr(kani, kani::unwind(11))]
 #[cfg_attr(kani, kani::stub(std::vec::Vec::resize, crate::stubs::vec_resize))]
 pub fn c05_urirefbuf_set_authority_n5() {
-    urirefbuf_set_authority::<5, 2>()
+    urirefbuf_set_authority::<5, 2, 10>()
 }
 
 // @h prop=C05,C04 tier=thorough kind=check timeout=2400 bound="UriRefBuf text <= 6 bytes, authority argument <= 2 bytes or removal" encodes="RiRefBufImpl::set_authority;parse::find_authority;utils::{replace,allocate_range}"
 #[cfg_attr(kani, kani::proof)]
-#[cfg_attr(kani, kani::unwind(13))]
-#[cfg_attr(kani, kani::stub(std::vec::Vec::resize, crate::stubs::vec_resize))]
-pub fn c05_urirefbuf_set_authority_n6() {
-    urirefbuf_set_authority::<6, 2>()
-}
-
-// @h prop=C05,C04 tier=quick kind=check timeout=2400 bound="UriRefBuf text <= 4 bytes, path argument <= 3 bytes" encodes="RiRefBufImpl::set_path;parse::find_path;RiRefImpl::authority;utils::{replace,allocate_range}"
-#[cfg_attr(kani, kani::proof)]
 #[cfg_attr(kani, kani::unwind(12))]
 #[cfg_attr(kani, kani::stub(std::vec::Vec::resize, crate::stubs::vec_resize))]
+pub fn c05_urirefbuf_set_authority_n6() {
+    urirefbuf_set_authority::<6, 2, 11>()
+}
+
+// @h prop=C05,C04 tier=quick kind=check mem=8 timeout=1800 bound="UriRefBuf text <= 4 bytes, path argument <= 3 bytes" encodes="RiRefBufImpl::set_path;parse::find_path;RiRefImpl::authority;utils::{replace,allocate_range}"
+#[cfg_attr(kani, kani::proof)]
+#[cfg_attr(kani, kani::unwind(11))]
+#[cfg_attr(kani, kani::stub(std::vec::Vec::resize, crate::stubs::vec_resize))]
 pub fn c05_urirefbuf_set_path_n4() {
-    urirefbuf_set_path::<4, 3>()
+    urirefbuf_set_path::<4, 3, 9>()
 }
 
 // @h prop=C05,C04 tier=thorough kind=check timeout=2400 bound="UriRefBuf text <= 5 bytes, path argument <= 3 bytes" encodes="RiRefBufImpl::set_path;parse::find_path;RiRefImpl::authority;utils::{replace,allocate_range}"
 #[cfg_attr(kani, kani::proof)]
-#[cfg_attr(kani, kani::unwind(13))]
+#[cfg_attr(kani, kani::unwind(11))]
 #[cfg_attr(kani, kani::stub(std::vec::Vec::resize, crate::stubs::vec_resize))]
 pub fn c05_urirefbuf_set_path_n5() {
-    urirefbuf_set_path::<5, 3>()
+    urirefbuf_set_path::<5, 3, 10>()
 }
 
 // @h prop=C05,C04 tier=thorough kind=check timeout=2400 bound="UriRefBuf text <= 6 bytes, path argument <= 3 bytes" encodes="RiRefBufImpl::set_path;parse::find_path;RiRefImpl::authority;utils::{replace,allocate_range}"
 #[cfg_attr(kani, kani::proof)]
-#[cfg_attr(kani, kani::unwind(14))]
+#[cfg_attr(kani, kani::unwind(12))]
 #[cfg_attr(kani, kani::stub(std::vec::Vec::resize, crate::stubs::vec_resize))]
 pub fn c05_urirefbuf_set_path_n6() {
-    urirefbuf_set_path::<6, 3>()
+    urirefbuf_set_path::<6, 3, 11>()
 }
 
-// @h prop=C05,C04:thorough tier=quick kind=check timeout=2400 bound="UriRefBuf text <= 4 bytes, query argument <= 2 bytes or removal" encodes="RiRefBufImpl::set_query;parse::find_query;utils::{replace,allocate_range}"
+// @h prop=C05,C04:thorough tier=quick kind=check mem=8 timeout=1800 bound="UriRefBuf text <= 4 bytes, query argument <= 2 bytes or removal" encodes="RiRefBufImpl::set_query;parse::find_query;utils::{replace,allocate_range}"
 #[cfg_attr(kani, kani::proof)]
 #[cfg_attr(kani, kani::unwind(11))]
 #[cfg_attr(kani, kani::stub(std::vec::Vec::resize, crate::stubs::vec_resize))]
 pub fn c05_urirefbuf_set_query_n4() {
-    urirefbuf_set_query::<4, 2>()
+    urirefbuf_set_query::<4, 2, 7>()
 }
 
 // @h prop=C05,C04 tier=thorough kind=check timeout=2400 bound="UriRefBuf text <= 5 bytes, query argument <= 2 bytes or removal" encodes="RiRefBufImpl::set_query;parse::find_query;utils::{replace,allocate_range}"
 #[cfg_attr(kani, kani::proof)]
-#[cfg_attr(kani, kani::unwind(12))]
+#[cfg_attr(kani, kani::unwind(11))]
 #[cfg_attr(kani, kani::stub(std::vec::Vec::resize, crate::stubs::vec_resize))]
 pub fn c05_urirefbuf_set_query_n5() {
-    urirefbuf_set_query::<5, 2>()
+    urirefbuf_set_query::<5, 2, 8>()
 }
 
 // @h prop=C05,C04 tier=thorough kind=check timeout=2400 bound="UriRefBuf text <= 6 bytes, query argument <= 2 bytes or removal" encodes="RiRefBufImpl::set_query;parse::find_query;utils::{replace,allocate_range}"
 #[cfg_attr(kani, kani::proof)]
-#[cfg_attr(kani, kani::unwind(13))]
+#[cfg_attr(kani, kani::unwind(11))]
 #[cfg_attr(kani, kani::stub(std::vec::Vec::resize, crate::stubs::vec_resize))]
 pub fn c05_urirefbuf_set_query_n6() {
-    urirefbuf_set_query::<6, 2>()
+    urirefbuf_set_query::<6, 2, 9>()
 }
 
-// @h prop=C05,C04:thorough tier=quick kind=check timeout=2400 bound="UriRefBuf text <= 4 bytes, fragment argument <= 2 bytes or removal" encodes="RiRefBufImpl::set_fragment;parse::find_fragment;utils::{replace,allocate_range}"
+// @h prop=C05,C04:thorough tier=quick kind=check mem=8 timeout=1800 bound="UriRefBuf text <= 4 bytes, fragment argument <= 2 bytes or removal" encodes="RiRefBufImpl::set_fragment;parse::find_fragment;utils::{replace,allocate_range}"
 #[cfg_attr(kani, kani::proof)]
 #[cfg_attr(kani, kani::unwind(11))]
 #[cfg_attr(kani, kani::stub(std::vec::Vec::resize, crate::stubs::vec_resize))]
 pub fn c05_urirefbuf_set_fragment_n4() {
-    urirefbuf_set_fragment::<4, 2>()
+    urirefbuf_set_fragment::<4, 2, 7>()
 }
 
 // @h prop=C05,C04 tier=thorough kind=check timeout=2400 bound="UriRefBuf text <= 5 bytes, fragment argument <= 2 bytes or removal" encodes="RiRefBufImpl::set_fragment;parse::find_fragment;utils::{replace,allocate_range}"
 #[cfg_attr(kani, kani::proof)]
-#[cfg_attr(kani, kani::unwind(12))]
+#[cfg_attr(kani, kani::unwind(11))]
 #[cfg_attr(kani, kani::stub(std::vec::Vec::resize, crate::stubs::vec_resize))]
 pub fn c05_urirefbuf_set_fragment_n5() {
-    urirefbuf_set_fragment::<5, 2>()
+    urirefbuf_set_fragment::<5, 2, 8>()
 }
 
 // @h prop=C05,C04 tier=thorough kind=check timeout=2400 bound="UriRefBuf text <= 6 bytes, fragment argument <= 2 bytes or removal" encodes="RiRefBufImpl::set_fragment;parse::find_fragment;utils::{replace,allocate_range}"
 #[cfg_attr(kani, kani::proof)]
-#[cfg_attr(kani, kani::unwind(13))]
+#[cfg_attr(kani, kani::unwind(11))]
 #[cfg_attr(kani, kani::stub(std::vec::Vec::resize, crate::stubs::vec_resize))]
 pub fn c05_urirefbuf_set_fragment_n6() {
-    urirefbuf_set_fragment::<6, 2>()
+    urirefbuf_set_fragment::<6, 2, 9>()
 }
 
 // thorough: deeper bounds
 // @h prop=C05,C04 tier=thorough kind=check timeout=3000 mem=16 bound="UriRefBuf text <= 8 bytes, scheme argument <= 3 bytes or removal" encodes="same as c05_urirefbuf_set_scheme_n6"
 #[cfg_attr(kani, kani::proof)]
-#[cfg_attr(kani, kani::unwind(16))]
+#[cfg_attr(kani, kani::unwind(13))]
 #[cfg_attr(kani, kani::stub(std::vec::Vec::resize, crate::stubs::vec_resize))]
 pub fn c05_urirefbuf_set_scheme_n8() {
-    urirefbuf_set_scheme::<8, 3>()
+    urirefbuf_set_scheme::<8, 3, 12>()
 }
 
 // @h prop=C05,C04 tier=thorough kind=check timeout=3000 mem=16 bound="UriRefBuf text <= 8 bytes, authority argument <= 3 bytes or removal" encodes="same as c05_urirefbuf_set_authority_n6"
 #[cfg_attr(kani, kani::proof)]
-#[cfg_attr(kani, kani::unwind(16))]
+#[cfg_attr(kani, kani::unwind(15))]
 #[cfg_attr(kani, kani::stub(std::vec::Vec::resize, crate::stubs::vec_resize))]
 pub fn c05_urirefbuf_set_authority_n8() {
-    urirefbuf_set_authority::<8, 3>()
+    urirefbuf_set_authority::<8, 3, 14>()
 }
 
 // @h prop=C05,C04 tier=thorough kind=check timeout=3000 mem=16 bound="UriRefBuf text <= 8 bytes, path argument <= 4 bytes" encodes="same as c05_urirefbuf_set_path_n6"
 #[cfg_attr(kani, kani::proof)]
-#[cfg_attr(kani, kani::unwind(17))]
+#[cfg_attr(kani, kani::unwind(15))]
 #[cfg_attr(kani, kani::stub(std::vec::Vec::resize, crate::stubs::vec_resize))]
 pub fn c05_urirefbuf_set_path_n8() {
-    urirefbuf_set_path::<8, 4>()
+    urirefbuf_set_path::<8, 4, 14>()
 }
 
 // @h prop=C05,C04 tier=thorough kind=check timeout=3000 mem=16 bound="UriRefBuf text <= 8 bytes, query argument <= 3 bytes or removal" encodes="same as c05_urirefbuf_set_query_n6"
 #[cfg_attr(kani, kani::proof)]
-#[cfg_attr(kani, kani::unwind(16))]
+#[cfg_attr(kani, kani::unwind(13))]
 #[cfg_attr(kani, kani::stub(std::vec::Vec::resize, crate::stubs::vec_resize))]
 pub fn c05_urirefbuf_set_query_n8() {
-    urirefbuf_set_query::<8, 3>()
+    urirefbuf_set_query::<8, 3, 12>()
 }
 
 // @h prop=C05,C04 tier=thorough kind=check timeout=3000 mem=16 bound="UriRefBuf text <= 8 bytes, fragment argument <= 3 bytes or removal" encodes="same as c05_urirefbuf_set_fragment_n6"
 #[cfg_attr(kani, kani::proof)]
-#[cfg_attr(kani, kani::unwind(16))]
+#[cfg_attr(kani, kani::unwind(13))]
 #[cfg_attr(kani, kani::stub(std::vec::Vec::resize, crate::stubs::vec_resize))]
 pub fn c05_urirefbuf_set_fragment_n8() {
-    urirefbuf_set_fragment::<8, 3>()
+    urirefbuf_set_fragment::<8, 3, 12>()
 }
 
 // ---- IriRefBuf (own RiRefBufImpl impl over a String; multi-byte arguments)
@@ -298,52 +298,52 @@ setter_body!(irirefbuf_set_scheme, IriRefBuf, t_iri_iriref_valid_k, mk_irirefbuf
 setter_body!(irirefbuf_set_fragment, IriRefBuf, t_iri_iriref_valid_k, mk_irirefbuf, Which::Fragment, v_iri_fragment,
     |x: &mut IriRefBuf, a: Option<&[u8]>| x.set_fragment(a.map(|a| unsafe { iri::Fragment::new_unchecked(as_str(a)) })), true);
 
-// @h prop=C05,C04:thorough tier=quick kind=check timeout=2400 bound="IriRefBuf text <= 4 bytes (UTF-8), query argument <= 3 bytes (one 3-byte scalar fits) or removal" encodes="RiRefBufImpl::set_query for IriRefBuf (String buffer)"
+// @h prop=C05,C04:thorough tier=quick kind=check mem=8 timeout=1800 bound="IriRefBuf text <= 4 bytes (UTF-8), query argument <= 3 bytes (one 3-byte scalar fits) or removal" encodes="RiRefBufImpl::set_query for IriRefBuf (String buffer)"
 #[cfg_attr(kani, kani::proof)]
-#[cfg_attr(kani, kani::unwind(12))]
+#[cfg_attr(kani, kani::unwind(11))]
 #[cfg_attr(kani, kani::stub(std::vec::Vec::resize, crate::stubs::vec_resize))]
 pub fn c05_irirefbuf_set_query_n4() {
-    irirefbuf_set_query::<4, 3>()
+    irirefbuf_set_query::<4, 3, 8>()
 }
 
 // @h prop=C05,C04 tier=thorough kind=check timeout=2400 bound="IriRefBuf text <= 5 bytes (UTF-8), query argument <= 3 bytes (one 3-byte scalar fits) or removal" encodes="RiRefBufImpl::set_query for IriRefBuf (String buffer)"
 #[cfg_attr(kani, kani::proof)]
-#[cfg_attr(kani, kani::unwind(13))]
+#[cfg_attr(kani, kani::unwind(11))]
 #[cfg_attr(kani, kani::stub(std::vec::Vec::resize, crate::stubs::vec_resize))]
 pub fn c05_irirefbuf_set_query_n5() {
-    irirefbuf_set_query::<5, 3>()
+    irirefbuf_set_query::<5, 3, 9>()
 }
 
 // @h prop=C05,C04 tier=thorough kind=check timeout=3000 mem=16 bound="IriRefBuf text <= 6 bytes, authority argument <= 3 bytes or removal" encodes="RiRefBufImpl::set_authority for IriRefBuf"
 #[cfg_attr(kani, kani::proof)]
-#[cfg_attr(kani, kani::unwind(14))]
+#[cfg_attr(kani, kani::unwind(13))]
 #[cfg_attr(kani, kani::stub(std::vec::Vec::resize, crate::stubs::vec_resize))]
 pub fn c05_irirefbuf_set_authority_n6() {
-    irirefbuf_set_authority::<6, 3>()
+    irirefbuf_set_authority::<6, 3, 12>()
 }
 
 // @h prop=C05,C04 tier=thorough kind=check timeout=3000 mem=16 bound="IriRefBuf text <= 6 bytes, path argument <= 3 bytes" encodes="RiRefBufImpl::set_path for IriRefBuf"
 #[cfg_attr(kani, kani::proof)]
-#[cfg_attr(kani, kani::unwind(14))]
+#[cfg_attr(kani, kani::unwind(12))]
 #[cfg_attr(kani, kani::stub(std::vec::Vec::resize, crate::stubs::vec_resize))]
 pub fn c05_irirefbuf_set_path_n6() {
-    irirefbuf_set_path::<6, 3>()
+    irirefbuf_set_path::<6, 3, 11>()
 }
 
 // @h prop=C05,C04 tier=thorough kind=check timeout=3000 mem=16 bound="IriRefBuf text <= 6 bytes, scheme argument <= 2 bytes or removal" encodes="RiRefBufImpl::set_scheme for IriRefBuf"
 #[cfg_attr(kani, kani::proof)]
-#[cfg_attr(kani, kani::unwind(13))]
+#[cfg_attr(kani, kani::unwind(11))]
 #[cfg_attr(kani, kani::stub(std::vec::Vec::resize, crate::stubs::vec_resize))]
 pub fn c05_irirefbuf_set_scheme_n6() {
-    irirefbuf_set_scheme::<6, 2>()
+    irirefbuf_set_scheme::<6, 2, 9>()
 }
 
 // @h prop=C05,C04 tier=thorough kind=check timeout=3000 mem=16 bound="IriRefBuf text <= 6 bytes, fragment argument <= 3 bytes or removal" encodes="RiRefBufImpl::set_fragment for IriRefBuf"
 #[cfg_attr(kani, kani::proof)]
-#[cfg_attr(kani, kani::unwind(14))]
+#[cfg_attr(kani, kani::unwind(11))]
 #[cfg_attr(kani, kani::stub(std::vec::Vec::resize, crate::stubs::vec_resize))]
 pub fn c05_irirefbuf_set_fragment_n6() {
-    irirefbuf_set_fragment::<6, 3>()
+    irirefbuf_set_fragment::<6, 3, 10>()
 }
 
 // ---- UriBuf / IriBuf: set_scheme takes a scheme (never removed); the other
@@ -359,60 +359,60 @@ setter_body!(iribuf_set_scheme, IriBuf, t_iri_iri_valid_k, mk_iribuf, Which::Sch
 setter_body!(iribuf_set_path, IriBuf, t_iri_iri_valid_k, mk_iribuf, Which::Path, v_iri_path,
     |x: &mut IriBuf, a: Option<&[u8]>| x.set_path(unsafe { iri::Path::new_unchecked(as_str(a.unwrap())) }), false);
 
-// @h prop=C05,C04:thorough tier=quick kind=check timeout=2400 bound="UriBuf text <= 4 bytes, scheme argument <= 2 bytes" encodes="RiBufImpl::set_scheme;parse::scheme"
+// @h prop=C05,C04:thorough tier=quick kind=check mem=8 timeout=1800 bound="UriBuf text <= 4 bytes, scheme argument <= 2 bytes" encodes="RiBufImpl::set_scheme;parse::scheme"
 #[cfg_attr(kani, kani::proof)]
 #[cfg_attr(kani, kani::unwind(11))]
 #[cfg_attr(kani, kani::stub(std::vec::Vec::resize, crate::stubs::vec_resize))]
 pub fn c05_uribuf_set_scheme_n4() {
-    uribuf_set_scheme::<4, 2>()
+    uribuf_set_scheme::<4, 2, 7>()
 }
 
 // @h prop=C05,C04 tier=thorough kind=check timeout=2400 bound="UriBuf text <= 5 bytes, scheme argument <= 2 bytes" encodes="RiBufImpl::set_scheme;parse::scheme"
 #[cfg_attr(kani, kani::proof)]
-#[cfg_attr(kani, kani::unwind(12))]
+#[cfg_attr(kani, kani::unwind(11))]
 #[cfg_attr(kani, kani::stub(std::vec::Vec::resize, crate::stubs::vec_resize))]
 pub fn c05_uribuf_set_scheme_n5() {
-    uribuf_set_scheme::<5, 2>()
+    uribuf_set_scheme::<5, 2, 8>()
 }
 
 // @h prop=C05,C04 tier=thorough kind=check timeout=2400 bound="UriBuf text <= 6 bytes, scheme argument <= 3 bytes" encodes="RiBufImpl::set_scheme;parse::scheme"
 #[cfg_attr(kani, kani::proof)]
-#[cfg_attr(kani, kani::unwind(14))]
+#[cfg_attr(kani, kani::unwind(11))]
 #[cfg_attr(kani, kani::stub(std::vec::Vec::resize, crate::stubs::vec_resize))]
 pub fn c05_uribuf_set_scheme_n6() {
-    uribuf_set_scheme::<6, 3>()
+    uribuf_set_scheme::<6, 3, 10>()
 }
 
 // @h prop=C05,C04 tier=thorough kind=check timeout=3000 mem=16 bound="UriBuf text <= 7 bytes, authority argument <= 3 bytes or removal" encodes="RiRefBufImpl::set_authority for UriBuf"
 #[cfg_attr(kani, kani::proof)]
-#[cfg_attr(kani, kani::unwind(15))]
+#[cfg_attr(kani, kani::unwind(14))]
 #[cfg_attr(kani, kani::stub(std::vec::Vec::resize, crate::stubs::vec_resize))]
 pub fn c05_uribuf_set_authority_n7() {
-    uribuf_set_authority::<7, 3>()
+    uribuf_set_authority::<7, 3, 13>()
 }
 
 // @h prop=C05,C04 tier=thorough kind=check timeout=3000 mem=16 bound="UriBuf text <= 7 bytes, path argument <= 3 bytes" encodes="RiRefBufImpl::set_path for UriBuf"
 #[cfg_attr(kani, kani::proof)]
-#[cfg_attr(kani, kani::unwind(15))]
+#[cfg_attr(kani, kani::unwind(13))]
 #[cfg_attr(kani, kani::stub(std::vec::Vec::resize, crate::stubs::vec_resize))]
 pub fn c05_uribuf_set_path_n7() {
-    uribuf_set_path::<7, 3>()
+    uribuf_set_path::<7, 3, 12>()
 }
 
 // @h prop=C05,C04 tier=thorough kind=check timeout=3000 mem=16 bound="IriBuf text <= 6 bytes, scheme argument <= 3 bytes" encodes="RiBufImpl::set_scheme for IriBuf"
 #[cfg_attr(kani, kani::proof)]
-#[cfg_attr(kani, kani::unwind(14))]
+#[cfg_attr(kani, kani::unwind(11))]
 #[cfg_attr(kani, kani::stub(std::vec::Vec::resize, crate::stubs::vec_resize))]
 pub fn c05_iribuf_set_scheme_n6() {
-    iribuf_set_scheme::<6, 3>()
+    iribuf_set_scheme::<6, 3, 10>()
 }
 
 // @h prop=C05,C04 tier=thorough kind=check timeout=3000 mem=16 bound="IriBuf text <= 6 bytes, path argument <= 3 bytes" encodes="RiRefBufImpl::set_path for IriBuf"
 #[cfg_attr(kani, kani::proof)]
-#[cfg_attr(kani, kani::unwind(14))]
+#[cfg_attr(kani, kani::unwind(12))]
 #[cfg_attr(kani, kani::stub(std::vec::Vec::resize, crate::stubs::vec_resize))]
 pub fn c05_iribuf_set_path_n6() {
-    iribuf_set_path::<6, 3>()
+    iribuf_set_path::<6, 3, 11>()
 }
 
 /// Buffers obtained without parsing: `default()` and `from_scheme` are valid
@@ -439,7 +439,7 @@ fn constructors<const M: usize>() {
     forget(i);
 }
 
-// @h prop=C04 tier=quick kind=check bound="scheme <= 4 bytes" encodes="Default for UriRefBuf/IriRefBuf/PathBuf;RiBufImpl::from_scheme;UriBuf::from_scheme;IriBuf::from_scheme"
+// @h prop=C04 tier=quick kind=check timeout=1800 mem=4 bound="scheme <= 4 bytes" encodes="Default for UriRefBuf/IriRefBuf/PathBuf;RiBufImpl::from_scheme;UriBuf::from_scheme;IriBuf::from_scheme"
 #[cfg_attr(kani, kani::proof)]
 #[cfg_attr(kani, kani::unwind(8))]
 #[cfg_attr(kani, kani::stub(std::vec::Vec::push, crate::stubs::vec_push))]
